@@ -80,8 +80,14 @@ def replay(ctx, data):
     inp = dict(data["input"])
     inp.setdefault("key", data.get("key", ""))
     rep = ctx.harness("c03", ["replay", json.dumps(inp)])
-    # the defect replays iff the same construct class is reported again
-    again = [v for v in (rep or {}).get("impl_violations", []) if v.get("key") == data.get("key")]
+    # the defect replays iff the same construct class is reported again (for an unclassified
+    # rejection, `other:<block>:<reason>`, the checker may name another of several offending
+    # instructions first: any unclassified rejection with a measured imbalance counts)
+    def fam(k):
+        return "other" if (k or "").startswith("other:") else k
+    again = [v for v in (rep or {}).get("impl_violations", [])
+             if fam(v.get("key")) == fam(data.get("key"))
+             and (data.get("input", {}).get("confirmed") is False or v.get("input", {}).get("confirmed") is not False)]
     for v in again[:1]:
         print(f"[C03] replayed: {v.get('what')}")
     return 1 if again else 0
